@@ -229,6 +229,19 @@ func init() {
 				}
 			}
 		}
+		// the Coq example rt_tree (proofs/ExtractFsRoundTrip.v): a:"hi", d/{l -> ../a, a:""}
+		for mode := uint64(0); mode < 3; mode++ {
+			g := &c18gen{r: r.Fork(), c: c, feat: map[string]bool{"symlink": true}, maxDep: 3}
+			t := &stree{kind: 'd', ents: []sent{
+				{[]byte("a"), &stree{kind: 'f', data: []byte("hi")}},
+				{[]byte("d"), &stree{kind: 'd', ents: []sent{
+					{[]byte("l"), &stree{kind: 'l', data: []byte("../a")}},
+					{[]byte("a"), &stree{kind: 'f'}},
+				}}},
+			}}
+			g.nodes = 5
+			c18Case(c, g, []byte("t"), t, 2, true, mode, false, true, "directed:coq-example")
+		}
 		// lone file / lone symlink sources
 		for _, nowrap := range []bool{false, true} {
 			for _, k := range []byte{'f', 'l'} {
